@@ -43,7 +43,7 @@ def conditions(tier, seed, active):
     return out
 
 
-def extra(tier, seed, ctx):
+def extra(tier, seed, ctx, only_family=None):
     from vf import numq, numkern as nk
     t0 = time.time()
     problems, violations, samples = [], [], []
@@ -54,6 +54,8 @@ def extra(tier, seed, ctx):
         qs, notes = numq.build_queries(tier)
     except nk.Unsupported as e:
         return dict(problems=["numkern cannot translate the current source: %s" % e], violations=[], coverage={})
+    if only_family:
+        qs = [q for q in qs if only_family in q.family]
     res = numq.run_queries(qs, jobs=ctx["jobs"], cross_check=(tier == "thorough"))
     n_claims = n_ok = n_wit = 0
     fam = {}
